@@ -292,7 +292,7 @@ impl ReplDriver {
                         prev_sigs.push(u.signature.clone());
                     }
                     // every alteration of this proof, judged from the current replica state
-                    let accepted = self.forgeries(&mut p, &req, &proof, &prev_sigs, &mut lin);
+                    let accepted = self.forgeries(&mut p, &req, &proof, &prev_sigs, &mut lin, g.subs.max(1));
                     if accepted {
                         // a harmless acceptance changed the replica: the request is stale now
                         continue;
@@ -301,7 +301,16 @@ impl ReplDriver {
                 self.apply_honest(&mut p, &req, proof, fc, &mut lin);
             }
         }
-        // complete replication: every block the writer still holds, then compare
+        self.complete_sync(&mut p, &mut lin);
+        // final cross-check, logged so that TLC sees both views side by side
+        self.plain_r(&mut p, &Op::Reopen);
+        let wv = p.w.view();
+        let rv = p.r.view();
+        self.rec().emit(json!({"e":"synced","w":wv,"r":rv}));
+    }
+
+    /// Replicate until the replica has the writer's length and every block the writer still holds.
+    fn complete_sync(&mut self, p: &mut Pair, lin: &mut Lineage) {
         let mut guard = 0;
         while guard < 6 * (p.w.len() + 2) {
             guard += 1;
@@ -316,7 +325,7 @@ impl ReplDriver {
             let want = missing.first().copied();
             let req = if let Some(i) = want {
                 // full upgrade first so that the block lies inside the tree
-                let mut r = match self.honest_request(&mut p, Some(i)) {
+                let mut r = match self.honest_request(p, Some(i)) {
                     Some(r) => r,
                     None => {
                         let u = RequestUpgrade { start: rlen, length: wlen - rlen };
@@ -340,17 +349,12 @@ impl ReplDriver {
                     upgrade: Some(RequestUpgrade { start: rlen, length: wlen - rlen }),
                 }
             };
-            if let Some(proof) = self.make_proof(&mut p, &req) {
-                self.apply_honest(&mut p, &req, proof, &FaultCfg::none(), &mut lin);
+            if let Some(proof) = self.make_proof(p, &req) {
+                self.apply_honest(p, &req, proof, &FaultCfg::none(), lin);
             } else {
                 break;
             }
         }
-        // final cross-check, logged so that TLC sees both views side by side
-        self.plain_r(&mut p, &Op::Reopen);
-        let wv = p.w.view();
-        let rv = p.r.view();
-        self.rec().emit(json!({"e":"synced","w":wv,"r":rv}));
     }
 
     fn plain_w(&mut self, p: &mut Pair, op: &Op) -> Value {
@@ -368,35 +372,46 @@ impl ReplDriver {
     // -----------------------------------------------------------------------
     // C04: alterations of an honest proof
 
-    /// Apply every alteration; returns true as soon as one was accepted (state may have moved).
-    fn forgeries(&mut self, p: &mut Pair, req: &Req, honest: &Proof, prev_sigs: &[Vec<u8>], lin: &mut Lineage) -> bool {
-        let alts = alterations(honest, &mut self.rng, prev_sigs);
+    /// Apply every alteration, each judged from the same replica state: an accepted one is
+    /// followed (sometimes) by honest replication to completion and then rolled back by
+    /// restoring the replica's storage (push/pop in the trace).
+    fn forgeries(&mut self, p: &mut Pair, req: &Req, honest: &Proof, prev_sigs: &[Vec<u8>], lin: &mut Lineage, subs: usize) -> bool {
+        let mut alts = alterations(honest, &mut self.rng, prev_sigs);
+        // a proof for the same blocks signed by a different writer
+        if let Some(pr) = foreign_proof(p, req) {
+            // only an upgrade is signed: without one, a proof over the same blocks from another
+            // writer is byte-identical to the honest one
+            alts.push(("other-writer".into(), req.upgrade.is_some(), pr));
+        }
         for (name, must, forged) in alts {
             let mut meta = req.meta("forged");
             meta["alt"] = json!(name);
             meta["must"] = json!(must);
+            let pre = p.r.disk.images();
             let op = Op::Proof { proof: Box::new(forged), meta };
+            self.rec().emit(json!({"e":"push"}));
             let ret = self.plain_r(p, &op);
             self.rec().count("forged", 1);
-            if ret["t"] == "ok" && ret["applied"] == true {
-                lin.ops.push(op);
+            let accepted = ret["t"] == "ok" && ret["applied"] == true;
+            if accepted {
                 self.rec().count("forged_accepted", 1);
-                return true;
+                if self.rng.gen_range(0..4) == 0 {
+                    // honest replication must still complete from the state it left
+                    let mut l2 = lin.clone();
+                    self.complete_sync(p, &mut l2);
+                    let wv = p.w.view();
+                    let rv = p.r.view();
+                    self.rec().emit(json!({"e":"synced","w":wv,"r":rv}));
+                }
             }
-        }
-        // a proof for the same blocks signed by a different writer
-        if let Some(pr) = foreign_proof(p, req) {
-            let mut meta = req.meta("forged");
-            meta["alt"] = json!("other-writer");
-            // only an upgrade is signed: without one, a proof over the same blocks from another
-            // writer is byte-identical to the honest one
-            meta["must"] = json!(req.upgrade.is_some());
-            let op = Op::Proof { proof: Box::new(pr), meta };
-            let ret = self.plain_r(p, &op);
-            self.rec().count("forged", 1);
-            if ret["t"] == "ok" && ret["applied"] == true {
-                lin.ops.push(op);
-                return true;
+            self.rec().emit(json!({"e":"pop"}));
+            if accepted || ret["t"] != "ok" && ret["t"] != "err" {
+                // roll the replica back to the state before the alteration
+                let (mut core, _) = Core::open("r", VDisk::from_images(pre));
+                for _ in 0..subs {
+                    core.subscribe();
+                }
+                p.r = core;
             }
         }
         false
